@@ -986,6 +986,9 @@ class Module(ABC):
         assert len(self.base.trainable_params) == 0, "No trainables allowed!"
 
         assert self.base._module_type != "network", "This is not allowed for networks."
+        assert (
+            self.base._module_type != "compartment"
+        ), "This is not allowed for compartments (build a `Branch` instead)."
         # `cell.set_ncomp()` is not allowed, `cell.branch(0).set_ncomp()` is (also if
         # the cell has a single branch).
         assert not (
